@@ -167,6 +167,8 @@ PROPS["C14"]["generated"] = [{"module": "ScpiVerif.Props.C14Gen", "section": "in
 PROPS["C13"]["generated"] = [{"module": "ScpiVerif.Props.C13Gen", "section": "lexer_c"}]
 PROPS["C01"]["generated"] = [{"module": "ScpiVerif.Props.C01Gen", "section": "lexer_c"}]
 PROPS["C20"]["generated"] = [{"module": "ScpiVerif.Props.C20Gen", "section": "heap_c"}]
+PROPS["C11"]["generated"] = [{"module": "ScpiVerif.Props.C11Gen", "section": "regs_c"}]
+PROPS["C12"]["generated"] = [{"module": "ScpiVerif.Props.C12Gen", "section": "regs_c"}]
 
 NOT_CLAIMED = {}
 
@@ -177,11 +179,11 @@ _T = {
     "C10": ("Theorems queue_refines / queue_owns_texts: for every capacity >= 1 and every history of pushes (any code, text, declared length, allocation failure), pops, SYST:ERR?, clears and counts, the model of fifo.c + error.c produces exactly the observations of an abstract bounded FIFO with -350 overflow marker, every live allocation is referenced by exactly one entry, nothing is freed twice, and an empty queue holds no allocation. Ring invariant and abstraction lemmas per fifo operation. Real malloc/free is observed by ASan and a link-time allocation counter, not proved. The ring-buffer functions of fifo.c are additionally TRANSLATED from the C text on every run (translate/c2lean.py, clang AST -> Gen/FifoC.lean) and proved to refine the hand model on every well-formed state (c_fifo_* theorems; well-formedness holds after fifo_init and is kept by every function), so the queue theorems hold of the C text as it is now, not only of the hand model.",
             "Lean kernel + standard axioms; fifo.c: clang-14 typed AST + translate/c2lean.py (Int model of int16 arithmetic with wrap on store, C99 remainder) + refinement proofs; error.c: hand-written model tied by exhaustive short histories (capacities 1..4), random long ones and capacities 100..1000 in configurations A and C with injected strndup failures",
             "Lean 4 refinement proof (ring buffer -> list) with ghost allocator; C-to-Lean translation of fifo.c with machine-checked equivalence to the model; differential correspondence"),
-    "C11": ("Theorem coherent_reachable: every state reachable from initialisation by any history of event/condition/enable/SRE writes (all 16-bit values), error push/pop/clear, *CLS and clearing queries satisfies the five status-byte equivalences; proved as an inductive invariant of the table-driven model of SCPI_RegSet instantiated with the register tables regenerated from ieee488.c.",
-            "Lean kernel + standard axioms; translator for register/group tables and bit constants; correspondence = lock-step comparison of every transition of exhaustive short and random long histories",
-            "Lean 4 inductive invariant over BitVec 16 state machine with generated tables + differential correspondence"),
-    "C12": ("Theorems class_bit (over the generated errs[] table, all 65536 codes by range reasoning), push_sets_exactly_class_bit, cond_latches_*, event_monotone, srq_regset, srq_step on the same model as C11.",
-            "Lean kernel + standard axioms; translator for errs[] and register tables; correspondence as C11 plus one push per error code",
+    "C11": ("Theorem coherent_reachable: every state reachable from initialisation by any history of event/condition/enable/SRE writes (all 16-bit values), error push/pop/clear, *CLS and clearing queries satisfies the five status-byte equivalences; proved as an inductive invariant of the table-driven model of SCPI_RegSet instantiated with the register tables regenerated from ieee488.c. SCPI_RegGet, writeControl, SCPI_RegSet, SCPI_RegSetBits and SCPI_RegClearBits are additionally TRANSLATED from the C text on every run (translate/c2lean_regs.py, clang AST -> Gen/RegsC.lean: switch, the do-while as recursion on fuel, uint16_t as BitVec 16, the control callback as a log) and proved to compute what the hand model computes for every context with the callback installed, every register name and every 16-bit value (c_regGet, c_regSet, c_regSetBits, c_regClearBits; the fuel never runs out: c_regSet_fuel), so coherent_step / coherent_reachable / stb_after_set hold of the C text as it is now (c_coherent_step, c_coherent_reachable, c_stb_after_set).",
+            "Lean kernel + standard axioms; translator for register/group tables and bit constants; ieee488.c register functions: clang-14 typed AST + translate/c2lean_regs.py (low-16-bit model of promoted & | ^ ~, enum values as Nat, callback assumed not to touch the registers, context pointer non-NULL) + refinement proofs; correspondence = lock-step comparison of every transition of exhaustive short and random long histories",
+            "Lean 4 inductive invariant over BitVec 16 state machine with generated tables; C-to-Lean translation of the register functions with machine-checked equivalence to the model; differential correspondence"),
+    "C12": ("Theorems class_bit (over the generated errs[] table, all 65536 codes by range reasoning), push_sets_exactly_class_bit, cond_latches_*, event_monotone, srq_regset, srq_step on the same model as C11. Latching, monotonicity and the service-request clauses are restated for the Lean text translated from SCPI_RegSet / SCPI_RegGet on every run (c_cond_latches_*, c_event_monotone, c_srq_regset, c_srq_step; tie as in C11).",
+            "Lean kernel + standard axioms; translator for errs[] and register tables; generated tie of the register functions as C11; correspondence as C11 plus one push per error code",
             "Lean 4 theorems over generated class table and register model + differential correspondence"),
 }
 _T["C13"] = ("Theorems per recogniser: the model of each scpiLex_* function consumes exactly the longest prefix in the token language of Spec/Tokens.lean (or nothing, restoring the cursor, except the documented incomplete-block swallow), stays inside its input, and reports type/extent/length of what it consumed; detectUnit accepts exactly the well-formed units of Spec/Unit.lean.",
